@@ -351,7 +351,9 @@ def check(src, rep):
             rep.undecide(f"R6 public normalisers outside the interpreted subset: {r1[:2]} / {r2[:2]}")
     else:
         a1 = a2 = None
-    if ok6:
+    if not ok6 and None in tg.values() and len(rs) == 1:
+        rep.undecide(f"R6 cannot see which grammar the entry points parse their input with ({tg})")
+    elif ok6:
         rep.ok("R6", "frame = body", "LlcPdu wraps the same NotificationBody grammar object; both entry points hand its list_items to the same normaliser")
     else:
         rep.violation("R6", "aidon", "frame-body", "frame and bare-body decoding do not share grammar and normaliser", file, 1, witness=f"routes={len(rs)} parse={tg} args={a1},{a2}")
